@@ -1,5 +1,5 @@
 PROP = dict(level="exploration", parts=[
-    cxx("minimg", "C02_minimg", ninja=CSG, shards=(16, 16)),
+    cxx("minimg", "C02_minimg", ninja=CSG, shards=(16, 16), timeout=dict(quick=900, thorough=10800)),
 ])
 TEXT = dict(engine="bsx", design_ref="DESIGN.md §3 C02",
    technique="exhaustive enumeration of (box, box-type mode, base point, difference, whole-box offsets) on dyadic fractional lattices against a brute-force 7^3 image search in long double",
